@@ -22,7 +22,7 @@ MSG = b"ab"
 def cfg_text(classes, maxsteps):
     return ('SPECIFICATION Spec\nCONSTANTS\n  Classes = {%s}\n  MaxSteps = %d\n'
             'INVARIANT LossCutsOff\nINVARIANT LossNeverRaises\nINVARIANT OtherPropagates\n'
-            'PROPERTY BlockKeepsState\nPROPERTY DatagramRetry\n' % (", ".join('"%s"' % c for c in classes), maxsteps))
+            'PROPERTY BlockKeepsState\nPROPERTY DatagramRetry\nPROPERTY RefusedReopens\n' % (", ".join('"%s"' % c for c in classes), maxsteps))
 
 
 def answer(e):
@@ -125,7 +125,7 @@ class ErrAdapter:
             elif op == "recvfrom":
                 sock.push(sop, dn.dgram(b"x", PEER))
             elif op == "connect":
-                sock.push(sop, dn.rc(0))
+                sock.push(sop, dn.rc(errno.EISCONN if via == "isconn" else 0))
                 if self.cls == "clienttls":
                     sock.push("do_handshake", dn.WANT_READ)
             elif op == "handshake":
@@ -189,6 +189,11 @@ class ErrAdapter:
                 out["wire"] = len(sock.sent)      # (a reopened client has a fresh socket: bytes are counted per socket)
             if op != "connect":
                 out["cutoff"] = bool(x.cutoff)
+            if self.cls in ("client", "clienttls") and not lossy_connect and not (op == "handshake" and not x.cs):
+                # the socket itself: how often it was replaced, and that the transport still holds an open one
+                cs = getattr(x.cs, "inner", x.cs)
+                out["gen"] = len(self.fake.created) - 1
+                out["live"] = bool(cs is not None and cs is self.fake.last and not cs.closed)
             if self.cls in ("client", "clienttls"):
                 out["connected"] = bool(x.connected)
                 if not lossy_connect:
@@ -203,7 +208,8 @@ class ErrAdapter:
 
 
 def _lossy_connect(op, e):
-    return op in ("connect", "handshake") and e not in ("EINPROGRESS", "EALREADY", "EWOULDBLOCK", "WANTREAD", "WANTWRITE")
+    return op in ("connect", "handshake") and e not in ("EINPROGRESS", "EALREADY", "EWOULDBLOCK", "EAGAIN", "WANTREAD", "WANTWRITE",
+                                                        "EINVAL", "ECONNREFUSED") or (op == "handshake" and e in ("EINVAL", "ECONNREFUSED"))
 
 
 def _name(ex, injected):
